@@ -102,7 +102,7 @@ TIES = {"C03": ["Serif.Tie.Typing", "Serif.Tie.Assign"], "C04": ["Serif.Tie.Typi
         "C02": ["Serif.Tie.Tab"], "C14": ["Serif.Tie.Sort"]}
 
 
-def build_ties(pid):
+def build_ties(pid, tier="quick"):
     """non-blocking: the translated definitions equal the model (for all inputs) — or the translator does not
     understand the current source; reported in the evidence, never a violation by itself"""
     out = {}
@@ -130,7 +130,17 @@ def build_ties(pid):
             if any(a not in ("propext", "Classical.choice", "Quot.sound") for a in axioms) or "sorry" in aout:
                 rc = 1
                 log = "axiom audit of the tie theorems failed: " + ", ".join(axioms)
-        out[mod] = {"status": "holds" if rc == 0 else "unavailable", "theorems": thms, "axioms": axioms,
+        checker = None
+        if rc == 0 and tier == "thorough":
+            # the toolchain's independent re-checker on the compiled tie module (thorough tier only)
+            try:
+                crc, cout = run_cmd(["lake", "env", "leanchecker", mod], cwd=LEAN, timeout=900)
+                checker = f"leanchecker {mod}: rc={crc}"
+                if crc != 0:
+                    rc, log = 1, "leanchecker failed: " + cout[-600:]
+            except Exception as ex:
+                checker = f"leanchecker {mod}: not run ({type(ex).__name__})"
+        out[mod] = {"status": "holds" if rc == 0 else "unavailable", "theorems": thms, "axioms": axioms, "checker": checker,
                     "log": "" if rc == 0 else "\n".join(l for l in log.splitlines() if not l.startswith("trace:"))[-600:]}
     return out
 
@@ -546,7 +556,7 @@ def run_check(pid, tier="quick", seed=0, nproc=None):
         if rc != 0:
             obligations_broken.append({"theorem": f"Serif.Props.{pid}", "problem": "leanchecker failed", "log": out[-1500:]})
 
-    ties = build_ties(pid)
+    ties = build_ties(pid, tier)
     budgets = getattr(mod, "BUDGET_S", {"quick": 40, "thorough": 420})
     search = bool(obligations_broken)
     budget = budgets["thorough" if search else tier]
